@@ -294,4 +294,30 @@ Definition finish (V : variant) (a : acc) : xout (list bytes) :=
 Definition run (V : variant) (files : list (bytes * list bytes)) (items : list item) : xout (list bytes) :=
   xbind (gather V files items) (finish V).
 
+(* ---- the domain of the proved statement, as an executable test (ExcludeFacts.domain_check_sound) ----
+   D02: glued to the digits its range prefix ends in, the largest number of the range is still a
+        number for hostname_create (MAX_HOST_SUFFIX);
+   D01: every number in an exclusion argument is below 10^15 (hostlist_pop's name buffer). *)
+Definition d02b (r : hr) : bool :=
+  single r || (value (snd (split_suffix (pfx r)) ++ fmt (wid r) (hi r)) <=? MAX_HOST_SUFFIX).
+Definition NUM15 : N := 1000000000000000.
+Definition hr_ok2b (r : hr) : bool := hi r <? NUM15.
+Definition name_domb (nm : bytes) : bool :=
+  match create nm with Ok t => forallb hr_ok2b (ranges t) | _ => true end.
+Definition arg_domb (arg : bytes) : bool :=
+  match create arg with
+  | Ok t => forallb hr_ok2b (ranges t) && forallb name_domb (expand (ranges t))
+  | _ => true
+  end.
+Definition domain_check (files : list (bytes * list bytes)) (items : list item) : bool :=
+  match gather fixed files items with
+  | XOk a =>
+    match a_wcoll a with
+    | Some w => (nhosts (wcoll_expand w) <=? INT_MAX)%Z && forallb d02b (ranges (wcoll_expand w))
+                && forallb arg_domb (a_excl a)
+    | None => true
+    end
+  | _ => true
+  end.
+
 End WithRegex.
